@@ -19,6 +19,7 @@ VERIF = os.path.dirname(os.path.dirname(os.path.abspath(__file__)))
 sys.path.insert(0, VERIF)
 REPO = os.environ.get("MEMENTO_REPO", "/repo")
 PROPS = ["C%02d" % i for i in range(1, 20)]
+CORPUS = os.environ.get("BENIGN_DIR", "benign")   # benign = round 1 (six-per-property sweeps), benign2 = round 2 (focused)
 
 
 def verdicts(root):
@@ -50,9 +51,29 @@ def verdicts(root):
     return out, detail
 
 
+class _Timeout(Exception):
+    pass
+
+
+def _alarm(signum, frame):
+    raise _Timeout()
+
+
 def one(args):
+    import signal
+    signal.signal(signal.SIGALRM, _alarm)
+    signal.alarm(int(os.environ.get("BENIGN_TIMEOUT", "180")))
+    try:
+        return _one(args)
+    except _Timeout:
+        return (args[0], ["  TIMEOUT: the checks did not finish within the time limit on this patch"], None)
+    finally:
+        signal.alarm(0)
+
+
+def _one(args):
     bid, base = args
-    d = os.path.join(VERIF, "benign", bid)
+    d = os.path.join(VERIF, CORPUS, bid)
     scratch = tempfile.mkdtemp(prefix="benignrun-")
     try:
         shutil.copytree(os.path.join(REPO, "twosigma"), os.path.join(scratch, "twosigma"))
@@ -90,8 +111,8 @@ def main():
                 n += 1
         print("imported %d patches as %s-N" % (n, prefix))
         return 0
-    ids = [a for a in sys.argv[1:] if not a.startswith("-")] or sorted(os.listdir(os.path.join(VERIF, "benign")))
-    ids = [i for i in ids if os.path.isdir(os.path.join(VERIF, "benign", i))]
+    ids = [a for a in sys.argv[1:] if not a.startswith("-")] or sorted(os.listdir(os.path.join(VERIF, CORPUS)))
+    ids = [i for i in ids if os.path.isdir(os.path.join(VERIF, CORPUS, i))]
     base, _ = verdicts(REPO)
     from multiprocessing import Pool
     with Pool(int(os.environ.get("BENIGN_JOBS", "12"))) as pool:
